@@ -457,4 +457,29 @@ example : Http.interpret [] ((Http.connectRequest [] (.domain [97,46,98] 443) .t
 example : Http.interpret [] ((Http.connectRequest [] (.domain [97,46,98] 443) .udpForward [112] []).get (by decide +kernel))
     = .udp (.domain [97,46,98] 443) false [] := by decide +kernel
 
+/-! ## line framing, first layer: `read_line` takes exactly one line -/
+
+/-- `read_line` returns exactly the bytes up to and including the first LF and leaves everything behind it unread, for
+every line content without an LF (valid UTF-8) and every continuation -/
+theorem readLine_exact (x rest : Bytes) (w : W) (hlf : 10 ∉ x) (hu : utf8Valid (x ++ [10]) = true) :
+    runFlat Http.readLine (x ++ 10 :: rest) w = (.ok (x ++ [10]), rest, w) := by
+  simp [Http.readLine, runFlat, flatUntil_delim 10 x rest hlf, hu]
+
+/-- a stream that ends before any LF is an error ("EOF"), never a short line taken for a whole one -/
+theorem readLine_eof (x : Bytes) (w : W) (hlf : 10 ∉ x) (hu : utf8Valid x = true) :
+    ∃ r, runFlat Http.readLine x w = (.err "EOF", r, w) := by
+  have hfu : ∀ y : Bytes, 10 ∉ y → flatUntil 10 y = (y, []) := by
+    intro y hy
+    induction y with
+    | nil => simp [flatUntil]
+    | cons b y ih =>
+      have hb : b ≠ 10 := fun e => hy (by simp [e])
+      have hy' : 10 ∉ y := fun e => hy (by simp [e])
+      simp [flatUntil, hb, ih hy']
+  have hl : x.getLast? ≠ some 10 := by
+    intro e
+    exact hlf (List.mem_of_getLast? e)
+  refine ⟨[], ?_⟩
+  simp [Http.readLine, runFlat, hfu x hlf, hu, hl, Rd.failWith]
+
 end Redproxy.Props.C03
